@@ -5,6 +5,8 @@
 // Input (argv[1]: case file), one case per line:
 //   <id> <layer> <sw> <out_opts|-> <cap1> <cap2> [<ord>]
 //   vfsm = like vfs, but the backend is mounted AFTER the first INIT (Vfs::mount initialises it with the stored out_opts)
+//   vfsf = like vfs, plus a second backend at "/x" whose init() fails (EIO) during the first INIT:
+//          init(cap1) [fails]; probes; init(cap1) [second backend healthy again, =R]; destroy; init(cap2); probes
 //   pt bits 7-8: dax_file_size  0 = Some(0), 1 = None, 2 = Some(2^40)
 //   ord 0:  init(cap1); probes; init(cap1) [=R]; destroy; init(cap2); probes
 //   ord 1:  destroy; init(cap1); probes; destroy; destroy; init(cap2); init(cap2) [=R]; probes
@@ -28,8 +30,8 @@
 //   DAX = lookup answered with FUSE_ATTR_DAX
 #![allow(clippy::all)]
 use fuse_backend_rs::abi::fuse_abi::{stat64, CreateIn, FsOptions, SetattrValid};
-use fuse_backend_rs::api::filesystem::{Context, FileSystem};
-use fuse_backend_rs::api::{Vfs, VfsOptions};
+use fuse_backend_rs::api::filesystem::{Context, Entry, FileSystem};
+use fuse_backend_rs::api::{BackendFileSystem, Vfs, VfsOptions};
 use fuse_backend_rs::overlayfs::config::Config as OvlConfig;
 use fuse_backend_rs::overlayfs::{BoxedLayer, OverlayFs};
 use fuse_backend_rs::passthrough::{CachePolicy, Config, PassthroughFs};
@@ -39,6 +41,7 @@ use std::io::{self, BufRead, Write};
 use std::os::unix::fs::PermissionsExt;
 use std::panic::{catch_unwind, AssertUnwindSafe};
 use std::path::{Path, PathBuf};
+use std::sync::atomic::{AtomicBool, Ordering};
 use std::sync::Arc;
 
 const FOPEN_IN_KILL_SUIDGID: u32 = 1;
@@ -347,6 +350,53 @@ where
     }
 }
 
+// a backend whose init() fails on demand (everything else: the trait's defaults)
+struct FailFs(Arc<AtomicBool>);
+impl FileSystem for FailFs {
+    type Inode = u64;
+    type Handle = u64;
+    fn init(&self, _c: FsOptions) -> io::Result<FsOptions> {
+        if self.0.load(Ordering::SeqCst) {
+            Err(io::Error::from_raw_os_error(libc::EIO))
+        } else {
+            Ok(FsOptions::empty())
+        }
+    }
+}
+impl BackendFileSystem for FailFs {
+    fn mount(&self) -> io::Result<(Entry, u64)> {
+        let mut attr: stat64 = unsafe { std::mem::zeroed() };
+        attr.st_ino = 1;
+        attr.st_mode = libc::S_IFDIR | 0o755;
+        attr.st_nlink = 2;
+        Ok((
+            Entry { inode: 1, generation: 0, attr, attr_flags: 0, attr_timeout: std::time::Duration::ZERO, entry_timeout: std::time::Duration::ZERO },
+            100,
+        ))
+    }
+    fn as_any(&self) -> &dyn std::any::Any {
+        self
+    }
+}
+
+fn sequence_fail<F>(fs: &F, scratch: &Path, layer: &str, cap1: u64, cap2: u64, fail: &AtomicBool) -> String
+where
+    F: FileSystem<Inode = u64, Handle = u64>,
+{
+    let c1 = FsOptions::from_bits_truncate(cap1);
+    let c2 = FsOptions::from_bits_truncate(cap2);
+    fail.store(true, Ordering::SeqCst);
+    let i1 = fmt_init(fs.init(c1));
+    let p1 = probes(fs, scratch, 1);
+    fail.store(false, Ordering::SeqCst);
+    let r = fmt_init(fs.init(c1));
+    fs.destroy();
+    reset_files(scratch, layer);
+    let i2 = fmt_init(fs.init(c2));
+    let p2 = probes(fs, scratch, 2);
+    format!("I={} {} R={} | I={} {}", i1, p1, r, i2, p2)
+}
+
 fn new_layer(dir: &Path) -> io::Result<Arc<BoxedLayer>> {
     let mut config = Config::default();
     config.root_dir = dir.to_string_lossy().into_owned();
@@ -369,7 +419,7 @@ fn run_case(scratch: &Path, layer: &str, sw: u64, out_opts: Option<u64>, cap1: u
             }
             Ok(sequence(&fs, scratch, layer, cap1, cap2, ord, &|| {}))
         }
-        "vfs" | "vfsm" => {
+        "vfs" | "vfsm" | "vfsf" => {
             prep_dir(scratch);
             let mut o = VfsOptions::default();
             o.no_open = sw & 1 != 0;
@@ -390,8 +440,13 @@ fn run_case(scratch: &Path, layer: &str, sw: u64, out_opts: Option<u64>, cap1: u
                     vfs.mount(Box::new(fs), "/").expect("mount");
                 }
             };
-            if layer == "vfs" {
+            if layer != "vfsm" {
                 mount();
+            }
+            if layer == "vfsf" {
+                let fail = Arc::new(AtomicBool::new(false));
+                vfs.mount(Box::new(FailFs(fail.clone())), "/x").map_err(|e| io::Error::new(io::ErrorKind::Other, format!("{:?}", e)))?;
+                return Ok(sequence_fail(&VfsU64(&vfs), scratch, layer, cap1, cap2, &fail));
             }
             Ok(sequence(&VfsU64(&vfs), scratch, layer, cap1, cap2, ord, &mount))
         }
